@@ -82,6 +82,7 @@ def summarize(sim):
         "sent": sim.sent,
         "queues": {n: w.queue_obs() for n, w in sim.workers.items()},
         "nworkers": len(sim.workers),
+        "testscollected": getattr(sim.ds._session, "testscollected", None),
         "exc": repr(getattr(sim, "exc", None))[:300] if getattr(sim, "exc", None) is not None else None,
         "exc_site": exc_site(getattr(sim, "exc", None)),
     }
